@@ -95,7 +95,7 @@ def gen_program(rng, stream):
         r = rng.random()
         if routes and r < 0.45:
             st['route'] = rng.choice(routes)
-        elif r > 0.97:
+        elif r > 0.993:
             st['route'] = 'zz'                      # a route nobody declares: ConfigurationError in every variant
         if chance(0.3):
             st['ctx'] = rng.choice(['A', 'B'])
@@ -120,10 +120,10 @@ def gen_program(rng, stream):
         if r < 0.2:
             st['renderer'] = rng.choice(['json', 'string'])
             st['ret'] = 'dict'
-        elif r < 0.4:
+        elif r < 0.4 and ('tagr' in rnames or chance(0.05)):
             st['renderer'] = 'tagr'
             st['ret'] = 'dict'
-        elif r < 0.5:
+        elif r < 0.5 and (None in rnames or chance(0.1)):
             st['ret'] = 'dict'                      # relies on a default renderer
         if chance(0.25):
             st['csrf'] = rng.choice([True, False])
@@ -206,16 +206,66 @@ def probes_for(rng, S):
     return seen
 
 
+SHADOWABLE = ('renderer', 'defperm', 'policy', 'rootf', 'sessf', 'reqf', 'reqm', 'view', 'route', 'vpred', 'deriver', 'tween')
+
+
+def make_shadow(rng, st, new_id):
+    """a statement with the same discriminator as [st] but another payload; it is only ever placed in an
+    include nested below the configurator that issues [st], so [st] overrides it and it must leave no trace"""
+    sh = dict(st, id=new_id, shadow_of=st['id'])
+    if st['k'] == 'defperm':
+        sh['perm'] = 'p2' if st['perm'] == 'p1' else 'p1'
+    elif st['k'] == 'rootf':
+        sh['ctx'] = 'B' if st.get('ctx', 'A') == 'A' else 'A'
+    elif st['k'] == 'route':
+        sh['pattern'] = '/shadow/' + st['name']
+    elif st['k'] == 'view':
+        if rng.random() < 0.5:
+            sh['perm'] = 'p2' if st.get('perm') != 'p2' else 'p1'     # secured vs unsecured twin
+        else:
+            sh.pop('perm', None)
+    return sh
+
+
+def insert_shadows(rng, body, shadows):
+    """shadows: {main id: shadow id}; each shadow goes into a fresh include below the list holding its main"""
+    out = []
+    for it in body:
+        if isinstance(it, int):
+            out.append(it)
+        else:
+            out.append({'inc': insert_shadows(rng, it['inc'], shadows)})
+    for it in list(out):
+        if isinstance(it, int) and it in shadows:
+            inc = {'inc': [shadows[it]]}
+            if rng.random() < 0.3:
+                inc = {'inc': [inc]}
+            out.insert(rng.randint(0, len(out)), inc)
+    return out
+
+
 def gen_case(rng, tier):
     r = rng.random()
-    stream = 'main' if r < 0.88 else 'tie' if r < 0.93 else 'pred2' if r < 0.97 else 'deriv2'
-    S = gen_program(rng, stream)
+    stream = 'main' if r < 0.70 else 'override' if r < 0.88 else 'tie' if r < 0.93 else 'pred2' if r < 0.97 else 'deriv2'
+    S = gen_program(rng, 'main' if stream == 'override' else stream)
     k = 5 if tier == 'quick' else 8
     variants = [[s['id'] for s in S]]
     for j in range(1, k):
         perm = respecting_shuffle(rng, S) if j % 2 == 1 or j > 3 else [s['id'] for s in S]
         variants.append(nest(rng, perm) if j >= 2 else perm)
-    return {'stream': stream, 'stmts': S, 'variants': variants, 'probes': probes_for(rng, S)}
+    probes = probes_for(rng, S)
+    if stream == 'override':
+        cands = [s for s in S if s['k'] in SHADOWABLE and not (s['k'] == 'view' and s.get('kind', 'view') != 'view')]
+        rng.shuffle(cands)
+        shadows = {}
+        for st in cands[:rng.choice([1, 1, 2, 3])]:
+            sh = make_shadow(rng, st, len(S))
+            S.append(sh)
+            shadows[st['id']] = sh['id']
+        # variant 0 stays the program without any shadow: the overridden twins must leave no trace at all
+        variants = [variants[0]] + [insert_shadows(rng, v, shadows) for v in variants[1:]]
+        probes += [['GET', '/shadow/r0', '', None, None], ['GET', '/shadow/r1', '', 'p1', None]]
+    return {'stream': stream, 'stmts': S, 'variants': variants, 'probes': probes}
 
 
 def flatten(body):
